@@ -41,8 +41,10 @@ def row_id(row):
 def as_count(p, n):
     """probability -> integer count, or None when p*n is not an integer."""
     v = float(p) * n
+    if not math.isfinite(v):
+        return None
     r = round(v)
-    if not math.isfinite(v) or abs(v - r) > EPS * max(1.0, abs(v)):
+    if abs(v - r) > EPS * max(1.0, abs(v)):
         return None
     return int(r)
 
